@@ -28,9 +28,13 @@ fn logln(log: &Log, s: &str) {
     let _ = f.flush();
 }
 
-struct Logger(Log);
+struct Logger(Log, u64);      // the log, and a pause (ms) made while each key is being handled (`key_delay_ms`)
 impl ConditionalEventHandler for Logger {
     fn handle(&self, evt: &Event, n: RepeatCount, positive: bool, ctx: &EventContext) -> Option<Cmd> {
+        if self.1 > 0 {
+            // an application whose key handling takes time: what arrives meanwhile (keys, messages) is pending TOGETHER at the next wait
+            std::thread::sleep(std::time::Duration::from_millis(self.1));
+        }
         if evt.get(0) == Some(&KeyEvent::ctrl('Z')) {
             // the suspend key (C16's rawmode stream counts the suspend episodes of a read)
             logln(&self.0, "Z");
@@ -202,6 +206,7 @@ pub fn main(spec_path: &str) {
     let mut signals = false;
     let mut stdout_full = false;
     let mut stdin_ro = false;
+    let mut preferterm = false;
     let mut stdout_close_after: Option<usize> = None;
     let mut tab_stop: u8 = 8;
     let mut indent_size: u8 = 2;
@@ -214,6 +219,7 @@ pub fn main(spec_path: &str) {
     let mut nprinters = 0usize;
     let mut printers_late = false;
     let mut linger = false;
+    let mut key_delay_ms = 0u64;
     let mut binds: Vec<(Vec<KeyEvent>, Cmd)> = Vec::new();
     let mut sqlite: Option<String> = None;
     let mut history2: Vec<String> = Vec::new();
@@ -257,8 +263,10 @@ pub fn main(spec_path: &str) {
             "printers" => nprinters = t[1].parse().unwrap(),
             "printers_late" => printers_late = t[1] == "1",
             "linger" => linger = t[1] == "1",
+            "key_delay_ms" => key_delay_ms = t[1].parse().unwrap(),
             "stdout_full" => stdout_full = t[1] == "1",
             "stdin_ro" => stdin_ro = t[1] == "1",
+            "preferterm" => preferterm = t[1] == "1",
             "stdout_close_after" => stdout_close_after = Some(t[1].parse().unwrap()),
             "tab_stop" => tab_stop = t[1].parse().unwrap(),
             "indent_size" => indent_size = t[1].parse().unwrap(),
@@ -271,6 +279,16 @@ pub fn main(spec_path: &str) {
             "sqlite" => sqlite = Some(t[1].to_owned()),
             "history2" => history2.push(parse_str(t[1])),
             _ => panic!("spec line {l}"),
+        }
+    }
+    if preferterm {
+        // `producer | app` with Behavior::PreferTerm: standard input is a pipe (kept open, nothing ever arrives), the editor opens
+        // the controlling terminal itself
+        let mut fds = [0i32; 2];
+        unsafe {
+            libc::pipe(fds.as_mut_ptr());
+            libc::dup2(fds[0], 0);
+            libc::close(fds[0]);
         }
     }
     if stdin_ro {
@@ -328,8 +346,9 @@ pub fn main(spec_path: &str) {
         .enable_signals(signals)
         .max_history_size(max_hist)
         .unwrap()
+        .behavior(if preferterm { rustyline::Behavior::PreferTerm } else { rustyline::Behavior::Stdio })
         .build();
-    let st = Setup { log: log.clone(), use_helper, script, binds, printer, nprinters, printers_late, linger, reads, initial, prompt, pause };
+    let st = Setup { log: log.clone(), use_helper, script, binds, printer, nprinters, printers_late, linger, reads, initial, prompt, pause, key_delay_ms };
     if let Some(path) = sqlite {
         let _ = std::fs::remove_file(&path);
         {
@@ -371,6 +390,7 @@ struct Setup {
     initial: Option<(String, String)>,
     prompt: String,
     pause: bool,
+    key_delay_ms: u64,
 }
 
 /// printer threads, told what to print by lines "<thread> <hex text>" on fd 4; each finished print is
@@ -406,14 +426,14 @@ fn spawn_printers<I: History>(rl: &mut Editor<ScriptHelper, I>, nprinters: usize
 }
 
 fn drive<I: History>(mut rl: Editor<ScriptHelper, I>, st: Setup, history: &[String]) {
-    let Setup { log, use_helper, script, binds, printer, nprinters, printers_late, linger, reads, initial, prompt, pause } = st;
+    let Setup { log, use_helper, script, binds, printer, nprinters, printers_late, linger, reads, initial, prompt, pause, key_delay_ms } = st;
     if use_helper {
         rl.set_helper(Some(ScriptHelper { s: script, hl: MatchingBracketHighlighter::new(), calls: Mutex::new(0) }));
     }
     for h in history {
         let _ = rl.add_history_entry(h.as_str());
     }
-    rl.bind_sequence(Event::Any, EventHandler::Conditional(Box::new(Logger(log.clone()))));
+    rl.bind_sequence(Event::Any, EventHandler::Conditional(Box::new(Logger(log.clone(), key_delay_ms))));
     for (keys, cmd) in binds {
         rl.bind_sequence(Event::KeySeq(keys), EventHandler::Simple(cmd));
     }
